@@ -71,6 +71,13 @@ STAGES = {
         'modules': ['cell_type_mapper.utils.csc_to_csr_parallel'],
         'mid': ('cell_type_mapper.utils.csc_to_csr',
                 '_calculate_csr_indptr')},
+    'refmarkers_small_budget': {
+        # the same stage with a budget of a few bytes and many markers per
+        # pair: the gene-major tables are built in several load chunks, and
+        # how many depends on the budget per worker
+        'modules': ['cell_type_mapper.utils.csc_to_csr_parallel'],
+        'mid': ('cell_type_mapper.utils.csc_to_csr',
+                '_calculate_csr_indptr')},
     'pmask': {
         'modules': ['cell_type_mapper.diff_exp.p_value_mask'],
         'mid': ('cell_type_mapper.diff_exp.p_value_mask',
@@ -96,7 +103,7 @@ REQUIRED_COUNTERS += [f'stage_{s}' for s in STAGES]
 MAX_WORKERS = 9
 N_WORKERS_HINT = {
     'mapping': 4, 'mapping_obsm_only': 4, 'mapping_direct': 4, 'stats': 3, 'stats_filelist': 4, 'refmarkers_score': 2,
-    'refmarkers_transpose': 4, 'pmask': 2, 'pmask_markers': 2,
+    'refmarkers_transpose': 4, 'refmarkers_small_budget': 4, 'pmask': 2, 'pmask_markers': 2,
     'selection': 3, 'transpose_v2': 3,
 }
 
@@ -187,12 +194,20 @@ class Env(object):
         m2 = gen.TaxModel(m.hierarchy, m.nodes, m.parent)
         m2.cells = part_cells
         self.ref_parts_tree = m2.to_dict(with_cells=True)
+        # a second, larger reference (14 leaves, 60 genes) for the stage
+        # that needs marker tables of several hundred entries
+        (self.work / 'big').mkdir(exist_ok=True)
+        self.big_ref = pw.make_reference(
+            np.random.default_rng(seed + 5), self.work / 'big', n_levels=3,
+            n_leaves=14, n_genes=60, cells_per_leaf=(5, 8), rich=True)
+        self.big_stats = self.work / 'big' / 'stats.h5'
         self.stats = self.work / 'stats.h5'
         self.refm = self.work / 'refm.h5'
         self.pmask = self.work / 'pmask.h5'
         self.lookup = self.work / 'lookup.json'
         inject.uninstall()
         pw.run_stats(self.ref, self.stats, self.tmp)
+        pw.run_stats(self.big_ref, self.big_stats, self.tmp)
         pw.run_ref_markers(self.stats, self.refm, self.tmp)
         pw.run_p_mask(self.stats, self.pmask, self.tmp)
         lk, _ = pw.run_query_markers(self.refm, self.ref.genes, self.lookup,
@@ -317,6 +332,14 @@ def run_stage(env, stage, out_dir, n_proc=None):
             outs['refm'] = out_dir / 'refm_out.h5'
             pw.run_ref_markers(env.stats, outs['refm'], env.tmp,
                                n_processors=NP(2), add_metadata=False)
+        elif stage == 'refmarkers_small_budget':
+            outs['refm'] = out_dir / 'refm_out.h5'
+            pw.run_ref_markers(env.big_stats, outs['refm'], env.tmp,
+                               n_processors=NP(2), add_metadata=False,
+                               max_gb=3e-5, n_valid=40, p_th=0.2,
+                               q1_th=0.3, q1_min_th=0.05, qdiff_th=0.3,
+                               qdiff_min_th=0.05, log2_fold_th=0.5,
+                               log2_fold_min_th=0.1)
         elif stage == 'pmask':
             outs['pmask'] = out_dir / 'pmask_out.h5'
             pw.run_p_mask(env.stats, outs['pmask'], env.tmp,
@@ -358,13 +381,19 @@ def later_stage_accepts(env, stage, outs):
             from cell_type_mapper.taxonomy.taxonomy_tree import TaxonomyTree
             from cell_type_mapper.diff_exp.score_utils import (
                 read_precomputed_stats)
-            tree = TaxonomyTree.from_precomputed_stats(p)
+            try:
+                tree = TaxonomyTree.from_precomputed_stats(p)
+            except Exception:
+                # the reference-marker stage is handed its taxonomy as an
+                # argument: a file without the embedded tree is still
+                # "accepted" if the arrays load against the real tree
+                tree = TaxonomyTree.from_precomputed_stats(env.stats)
             read_precomputed_stats(p, tree, for_marker_selection=True)
         except Exception:
             return None
         return f'statistics file {p.name} is readable by the next stage'
     if stage in ('refmarkers_score', 'refmarkers_transpose',
-                 'pmask_markers'):
+                 'refmarkers_small_budget', 'pmask_markers'):
         p = outs['refm']
         if not p.exists():
             return None
